@@ -961,6 +961,7 @@ func TestReplay(t *testing.T) {
 		},
 		"scalar": func(raw json.RawMessage) *ev.Failure { return nil },
 		"rebind": replayRebind,
+		"vargs":  replayVCase,
 		"reentrant": func(raw json.RawMessage) *ev.Failure {
 			var c ReCase
 			json.Unmarshal(raw, &c)
